@@ -50,6 +50,9 @@ func init() {
 	extendProp("C12", "(R12.10) IsCompletedPod answers false only for a phase that is neither Failed nor Succeeded; (R12.11) ListOwnedPods keeps a pod only under IsOwnedBy(...) == true evaluated for that pod.", r6C12)
 	extendProp("C08", "(R8.12) util.EqualIgnoreHash — the 'did the pod template change' test of all four admission handlers — answers true only as the outcome of a deep comparison; R8.8 now accepts 'template unchanged' as a reason to skip only where no rollout-id is configured.", r7C08)
 	extendProp("C09", "(R9.9) every write into an `.Annotations` map in the controllers, the workload webhook and the conversion functions is preceded on every path by a nil test of an annotations map or by a fresh map being stored.", r7C09)
+	extendProp("C07", "(R7.12) Initialize of the partition-style Deployment controller does not carry the stored strategy's paused flag into the strategy it writes; (R7.13) every store of status.observedWorkloadReplicas takes WorkloadInfo.Replicas, the value WorkloadInfo.IsScaling compares it with.", r7C07)
+	extendProp("C05", "(R5.16) all workload finders (CloneSet, DaemonSet, both Deployment forms, StatefulSet-like) set Workload.RevisionLabelKey on every path that returns the Workload of an existing object — also when the workload carries no in-progress marker, which is the state every finalising pass after the first one sees.", r7C05)
+	extendProp("C03", "(R3.13) calculateRolloutHash rebuilds the steps it hashes from a list that has not just been emptied (both strategies): a plan edit of the current step must change the hash, or the step's routing is never re-applied.", r7C03)
 	extendProp("C08", "(R8.10) both admission handlers answer 'this workload is not selected by the webhook configuration' only after every entry and rule was examined (or the entry's selector cannot be parsed): the first entry whose rule matches does not decide alone.", r6C08)
 }
 
@@ -1439,5 +1442,222 @@ func r7C09(c *Ctx) {
 					ifs(reach, "the write is reachable without a nil test of the map or a fresh map having been stored: an object whose annotations are absent (legal for every API object) makes this a write into a nil map — a panic in the worker, on every retry"))
 			}
 		}
+	}
+}
+
+// ---------------------------------------------------------------- C07 R7.12, R7.13 (round 7)
+
+func r7C07(c *Ctx) {
+	p := c.Prog
+	c.Rule("R7.12", "a new partition-style Deployment release starts from an un-paused strategy", 1)
+	if fn := p.Func("pkg/controller/batchrelease/control/partitionstyle/deployment.realController.Initialize"); fn == nil {
+		c.Unresolved("R7.12", "partitionstyle/deployment.realController.Initialize")
+	} else {
+		n := 0
+		bad := ""
+		for _, ci := range AllCalls(fn) {
+			if cn := CalleeName(ci.Common()); !(strings.HasSuffix(cn, "json.Marshal") || strings.HasSuffix(cn, "util.DumpJSON")) || len(ci.Common().Args) != 1 {
+				continue
+			}
+			arg := ci.Common().Args[0]
+			if mi, ok := arg.(*ssa.MakeInterface); ok {
+				arg = mi.X
+			}
+			al, ok := arg.(*ssa.Alloc)
+			if !ok || !strings.HasSuffix(al.Type().String(), "DeploymentStrategy") {
+				continue
+			}
+			n++
+			isMarshal := func(in ssa.Instruction) bool { return in == ci.(ssa.Instruction) }
+			cleared := func(in ssa.Instruction) bool {
+				st, ok := in.(*ssa.Store)
+				if !ok {
+					return false
+				}
+				if st.Addr == ssa.Value(al) { // the whole strategy replaced by something that is not the stored one
+					if call, isCall := Forwarded(st.Val).(*ssa.Call); isCall && strings.Contains(CalleeName(&call.Call), "GetDeploymentStrategy") {
+						return false
+					}
+					return true
+				}
+				if fa, ok := st.Addr.(*ssa.FieldAddr); ok && fa.X == ssa.Value(al) {
+					if nm, _ := FieldOf(fa); nm == "Paused" {
+						if k, isC := st.Val.(*ssa.Const); isC && constText(k) == "false" {
+							return true
+						}
+					}
+				}
+				return false
+			}
+			for _, st := range AllocStoresOf(al) {
+				if st.Addr != ssa.Value(al) {
+					continue
+				}
+				call, isCall := Forwarded(st.Val).(*ssa.Call)
+				if !isCall || !strings.Contains(CalleeName(&call.Call), "GetDeploymentStrategy") {
+					continue
+				}
+				if reach, _ := CanReach(PointAfter(st), isMarshal, ReachOpts{CutInstr: cleared}); reach {
+					bad = "the strategy read from the Deployment's annotation at " + p.Pos(st.Pos()) + " reaches the annotation written at " + p.Pos(ci.Pos()) + " without `paused` having been reset: the webhook sets strategy.paused=true when a release in progress receives another revision, and nothing but this Initialize clears it — the new release never rolls a pod"
+				}
+			}
+		}
+		c.Ob("R7.12", "partitionstyle/deployment.Initialize#strategy-unpaused", fn.Pos(), n > 0 && bad == "", "the strategy written by Initialize is a fresh one, or has paused set to false", bad+ifs(n == 0, "strategy annotation write not found"))
+	}
+
+	c.Rule("R7.13", "the workload size remembered for scaling detection is the size scaling is detected on", 3)
+	var fns []*ssa.Function
+	for _, fn := range p.RepoFuncs() {
+		if strings.HasPrefix(FuncName(fn), "pkg/controller/batchrelease") {
+			fns = append(fns, fn)
+		}
+	}
+	for _, st := range FieldStores(fns, "", "ObservedWorkloadReplicas") {
+		t := TermOf(st.Val)
+		if t.Op == "const" {
+			continue // a reset
+		}
+		_, path := t.FieldPath()
+		ok := t.Op == "field" && len(path) > 0 && path[len(path)-1] == "Replicas"
+		for _, x := range path {
+			if x == "Status" || x == "Spec" {
+				ok = false
+			}
+		}
+		c.Ob("R7.13", FuncName(st.Parent())+"#observed-replicas", st.Pos(), ok, "ObservedWorkloadReplicas = WorkloadInfo.Replicas (the field IsScaling compares with)",
+			ifs(!ok, "stored from "+t.String()+": IsScaling compares the remembered value with WorkloadInfo.Replicas, so a value taken from anywhere else (the canary-style control plane's synthetic info has Status.Replicas == 0) makes every reconcile look like a scaling event and the batch restarts for ever"))
+	}
+}
+
+// ---------------------------------------------------------------- C05 R5.16 (round 7)
+
+func r7C05(c *Ctx) {
+	p := c.Prog
+	c.Rule("R5.16", "every workload finder names the pods' revision label on every Workload it hands out", 5)
+	for _, fn := range p.RepoFuncs() {
+		if !strings.HasPrefix(FuncName(fn), "pkg/util.ControllerFinder.get") || fn.Signature.Results().Len() != 2 {
+			continue
+		}
+		if !strings.HasSuffix(fn.Signature.Results().At(0).Type().String(), "pkg/util.Workload") {
+			continue
+		}
+		// the Workload built for an existing, consistent object: the literal that receives the object's metadata
+		for _, b := range fn.Blocks {
+			for _, in := range b.Instrs {
+				al, ok := in.(*ssa.Alloc)
+				if !ok || !strings.HasSuffix(al.Type().String(), "pkg/util.Workload") {
+					continue
+				}
+				full, keyed := false, []ssa.Instruction{}
+				for _, st := range AllocStoresOf(al) {
+					if fa, ok := st.Addr.(*ssa.FieldAddr); ok && fa.X == ssa.Value(al) {
+						switch nm, _ := FieldOf(fa); nm {
+						case "ObjectMeta":
+							full = true
+						case "RevisionLabelKey":
+							keyed = append(keyed, st)
+						}
+					}
+				}
+				if !full {
+					continue
+				}
+				isKey := func(x ssa.Instruction) bool {
+					for _, k := range keyed {
+						if k == x {
+							return true
+						}
+					}
+					return false
+				}
+				retOfThis := func(x ssa.Instruction) bool {
+					ret, ok := x.(*ssa.Return)
+					if !ok || len(ret.Results) != 2 {
+						return false
+					}
+					for _, lf := range Leaves(Forwarded(ret.Results[0]), ret.Block()) {
+						if lf.V == ssa.Value(al) {
+							return true
+						}
+					}
+					return false
+				}
+				reach, at := CanReach(PointAfter(al), retOfThis, ReachOpts{CutInstr: isKey})
+				c.Ob("R5.16", FuncName(fn)+"#revision-label-key", al.Pos(), !reach, "RevisionLabelKey is set on every path that returns this Workload",
+					ifs(reach, "the Workload can be returned at "+p.Pos(posOf(at))+" without RevisionLabelKey: once the in-progress marker is gone (the first finalising pass removes it) RestoreStableService finds no key to look for in the Service selector, reports nothing to do, and the stable Service stays pinned to one revision after the rollout has ended"))
+			}
+		}
+	}
+}
+
+func posOf(in ssa.Instruction) token.Pos {
+	if in == nil {
+		return token.NoPos
+	}
+	return in.Pos()
+}
+
+// ---------------------------------------------------------------- C03 R3.13 (round 7)
+
+func r7C03(c *Ctx) {
+	p := c.Prog
+	c.Rule("R3.13", "the plan hash is computed over the steps of the plan", 2)
+	fn := p.Func("pkg/controller/rollout.RolloutReconciler.calculateRolloutHash")
+	if fn == nil {
+		c.Unresolved("R3.13", "RolloutReconciler.calculateRolloutHash")
+		return
+	}
+	for _, ci := range AllCalls(fn) {
+		bi, ok := ci.Common().Value.(*ssa.Builtin)
+		if !ok || bi.Name() != "append" || len(ci.Common().Args) < 2 {
+			continue
+		}
+		dst := TermOf(ci.Common().Args[0])
+		if !(MField("Steps")(dst) || dst.Any(MField("Steps"))) {
+			continue
+		}
+		// where the appended steps are read from
+		bad := ""
+		n := 0
+		for x := range BackwardSlice(ci.Common().Args[1]) {
+			ia, ok := x.(*ssa.IndexAddr)
+			if !ok {
+				continue
+			}
+			ld, ok := ia.X.(*ssa.UnOp)
+			if !ok {
+				continue
+			}
+			fa, ok := ld.X.(*ssa.FieldAddr)
+			if !ok {
+				continue
+			}
+			if nm, _ := FieldOf(fa); nm != "Steps" {
+				continue
+			}
+			n++
+			src := TermOf(fa).String()
+			for _, b := range fn.Blocks {
+				for _, in := range b.Instrs {
+					st, ok := in.(*ssa.Store)
+					if !ok {
+						continue
+					}
+					k, isC := st.Val.(*ssa.Const)
+					if !isC || !k.IsNil() || TermOf(st.Addr).String() != src {
+						continue
+					}
+					refilled := func(y ssa.Instruction) bool {
+						s2, ok := y.(*ssa.Store)
+						return ok && s2 != st && TermOf(s2.Addr).String() == src
+					}
+					if r, _ := CanReach(PointAfter(st), func(y ssa.Instruction) bool { return y == ssa.Instruction(ld) }, ReachOpts{CutInstr: refilled}); r {
+						bad = "the steps are read from " + strings.TrimPrefix(src, "&") + ", which was set to nil at " + p.Pos(st.Pos()) + " and not filled since: the loop never runs and the hash does not depend on the steps"
+					}
+				}
+			}
+		}
+		c.Ob("R3.13", "calculateRolloutHash#steps-hashed("+strings.TrimPrefix(dst.String(), "&")+")", ci.Pos(), n > 0 && bad == "", "the steps copied into the hashed value come from a list that still holds them",
+			ifs(bad != "", bad+": editing the traffic or matches of the step a rollout is paused on is then not noticed, and the step keeps being reported as routed with the old value on the gateway")+ifs(n == 0, "source of the appended steps not recognised"))
 	}
 }
